@@ -41,7 +41,10 @@ manifest = {
     },
     "engines": [{"name": "hypothesis+enumeration", "path": "harness/core.py",
                  "serves_properties": [c["property_id"] for c in checks],
-                 "kind_free_text": "property-based testing: Hypothesis-driven generated cases (one binary draw decoded by a grammar), exhaustive enumeration of finite sub-domains, 16-way sharding, bucketed violations, Hypothesis shrinking, JSON replay files"}],
+                 "kind_free_text": "property-based testing: Hypothesis-driven generated cases (one binary draw decoded by a grammar), exhaustive enumeration of finite sub-domains, 16-way sharding, bucketed violations, Hypothesis shrinking, JSON replay files"},
+                {"name": "atheris/libFuzzer (coverage-guided, additive)", "path": "harness/fuzz.py",
+                 "serves_properties": [c["property_id"] for c in checks if "coverage-guided" in c.get("technique", "")],
+                 "kind_free_text": "coverage-guided fuzzing of the same byte decoder + semantic oracle as the Hypothesis parts; bumpver package instrumented; one libFuzzer child per shard; fails soft (part reported unavailable) when atheris cannot be installed from the offline wheelhouse"}],
     "checks": checks,
     "not_applicable": na,
     "notes": "See DESIGN.md. known_findings.json lists recorded genuine defects (open) and repaired ones (fixed).",
